@@ -35,33 +35,35 @@ def cases(tier, seed):
                [1]]                                           # [1]: the base alone - a multires file with a single level
     nz = 70 if tier == "quick" else 900
     for h in range(nz):
-        table, b0 = setups[h % len(setups)]
-        mode = "symm" if h % 3 else "square"
-        px = gen.random_store(rng, len(table), mode, maxval=4) if h % 8 else []
-        mult = ladders[h % len(ladders)] if h % 5 else sorted(rng.sample(range(1, 13), rng.randint(1, 4)))
+        F_h = gen.feat(101, h)          # independent feature choices per case (gen.feat)
+        table, b0 = setups[F_h("len_setups@37", len(setups))]
+        mode = "symm" if F_h("m3@38", 3) else "square"
+        px = gen.random_store(rng, len(table), mode, maxval=4) if F_h("m8@39", 8) else []
+        mult = ladders[F_h("len_ladders@40", len(ladders))] if F_h("m5@40", 5) else sorted(rng.sample(range(1, 13), rng.randint(1, 4)))
         res = [m * b0 for m in mult]
-        if h % 4 == 1 and b0 not in res:
+        if F_h("m4@42", 4) == 1 and b0 not in res:
             res.append(b0)                                       # with the base itself
-        if h % 7 == 3:
+        if F_h("m7@44", 7) == 3:
             res = res + [res[-1] * 2 + b0 // 1 * 1 if False else (res[0] * 2 + 1) * 1]   # a member that cannot be derived
         base_res = [b0]
-        if h % 6 == 2:
+        if F_h("m6@47", 6) == 2:
             base_res = [b0, 2 * b0]                              # several base coolers
         case = {"table": table, "mode": mode, "binsize": b0, "px": px, "resolutions": res, "base_res": base_res,
-                "chunk": rng.choice([1, 2, 5, 10 ** 6]), "nproc": 2 if h % 23 == 9 else 1}
-        if h % 9 == 6:
+                "chunk": rng.choice([1, 2, 5, 10 ** 6]), "nproc": 2 if F_h("m23@50", 23) == 9 else 1}
+        if F_h("m9@51", 9) == 6:
             case["via"] = "cli"
-        if h % 6 == 4:
+        if F_h("m6@53", 6) == 4:
             case["src_at"] = "/resolutions/%d" % b0              # the base is itself a level of another multires file
-        if h % 5 == 3:
+        if F_h("m5@55", 5) == 3:
             # the output path was used before, for other data and another ladder
             case["prior"] = {"px": gen.random_store(rng, len(table), mode, maxval=4),
                              "resolutions": [m * b0 for m in rng.choice([[2, 4, 8, 16], [3, 6], [2, 5, 10], [1, 7]])]}
         yield "zm.zoomify", case
     # (2b) bases that are not coarsenings of one another, with their own data and value dtype
     for h in range(24 if tier == "quick" else 300):
-        lens = [[24, 12], [36], [18, 12, 6]][h % 3]
-        mode = "symm" if h % 3 else "square"
+        F_h = gen.feat(102, h)          # independent feature choices per case (gen.feat)
+        lens = [[24, 12], [36], [18, 12, 6]][F_h("m3@62", 3)]
+        mode = "symm" if F_h("m3@63", 3) else "square"
         ra, rb = rng.choice([(2, 3), (3, 2), (2, 5), (3, 4), (4, 3)])
         dts = rng.choice([("int32", "float64"), ("float64", "int32"), ("int32", "float32"), ("int64", "float64"), ("float64", "float64")])
         bases = []
@@ -76,7 +78,7 @@ def cases(tier, seed):
         res = [r for r in res if (r % ra == 0) != (r % rb == 0)]     # exactly one possible base
         rng.shuffle(res)
         yield "zm.multibase", {"mode": mode, "bases": bases, "resolutions": res, "chunk": rng.choice([3, 10 ** 6]),
-                               "dtypes_arg": ["none", "empty", "cli"][h % 3]}      # dtypes=None / an empty mapping / `--field count`
+                               "dtypes_arg": ["none", "empty", "cli"][F_h("m3@78", 3)]}      # dtypes=None / an empty mapping / `--field count`
     # (3) resolution-spec spellings of `cooler zoomify -r`
     specs = [("N", [{"kind": "n", "start": 1000}]), ("n", [{"kind": "n", "start": 1000}]), ("B", [{"kind": "b", "start": 1000}]),
              ("b", [{"kind": "b", "start": 1000}]), ("4DN", [{"kind": "4dn", "start": 0}]), ("4dn", [{"kind": "4dn", "start": 0}]),
